@@ -657,6 +657,9 @@ def check_dispatch(prog, rep, K, ai):
 
 def _axis_test(t):
     """`axis == self.X_axis` -> ('eq', 'X_axis'); `axis in self.square_X_axes` -> ('in', ...); mats[0].X_axis accepted"""
+    if isinstance(t, ast.Compare) and len(t.ops) == 1 and isinstance(t.ops[0], ast.Eq) and isinstance(t.comparators[0], ast.Name) and t.comparators[0].id == "axis" \
+            and not (isinstance(t.left, ast.Name) and t.left.id == "axis"):
+        t = ast.Compare(left=t.comparators[0], ops=[ast.Eq()], comparators=[t.left])      # self.X_axis == axis
     if isinstance(t, ast.Compare) and len(t.ops) == 1 and isinstance(t.left, ast.Name) and t.left.id == "axis":
         r = t.comparators[0]
         if isinstance(r, ast.Attribute):
